@@ -135,19 +135,23 @@ package util
 //@ spec litsSound(networks map[subnetCategory][]string) bool =
 //@      all(c, subnetCategory, implies(indom(networks, c), forall(i, 0, len(networks[c]), tableLit(networks[c][i]))))
 
-//@ func init@ip.go [C19]
+//@ func init@ip.go [C19 C02]
 //@   requires len(reservedNetworks) == 0
 //@   nopanic
 //@   assigns \fresh, reservedNetworks
-//@   loop 1 invariant fromLits(networks)
-//@   loop 1 invariant all(c, subnetCategory, implies(seen(1, c), listDone(networks[c])))
-//@   loop 2 invariant fromLits(networks) && seen(1, curkey(1)) && indom(networks, curkey(1)) && netList == networks[curkey(1)]
-//@   loop 2 invariant all(c, subnetCategory, implies(seen(1, c) && c != curkey(1), listDone(networks[c])))
-//@   loop 2 invariant forall(i, 0, k, inRN(cidr(netList[i])))
-//@   ensures fromLits(networks) && all(c, subnetCategory, implies(indom(networks, c), listDone(networks[c])))
-//@   ensures litsSound(networks)
-//@   ensures litWitnesses(networks, "init@ip.go")
-//@   ensures forall(j, 0, len(reservedNetworks), reservedNetworks[j] != nil && anyLit(s, "init@ip.go", netid(reservedNetworks[j]) == cidr(s)))
+//@   loop 1 invariant [C19] fromLits(networks)
+//@   loop 1 invariant [C19] all(c, subnetCategory, implies(seen(1, c), listDone(networks[c])))
+//@   loop 2 invariant [C19] fromLits(networks) && seen(1, curkey(1)) && indom(networks, curkey(1)) && netList == networks[curkey(1)]
+//@   loop 2 invariant [C19] all(c, subnetCategory, implies(seen(1, c) && c != curkey(1), listDone(networks[c])))
+//@   loop 2 invariant [C19] forall(i, 0, k, inRN(cidr(netList[i])))
+//@   ensures [C19] fromLits(networks) && all(c, subnetCategory, implies(indom(networks, c), listDone(networks[c])))
+//@   ensures [C19] litsSound(networks)
+//@   ensures [C19] litWitnesses(networks, "init@ip.go")
+//@   ensures [C19] forall(j, 0, len(reservedNetworks), reservedNetworks[j] != nil && anyLit(s, "init@ip.go", netid(reservedNetworks[j]) == cidr(s)))
+// the part of the table invariant that panic-freedom of the readers rests on (C02): no nil entry
+//@   loop 1 invariant [C02] rnNonNil()
+//@   loop 2 invariant [C02] rnNonNil()
+//@   ensures [C02] rnNonNil()
 
 //@ func IsIANAReserved [C19]
 //@   pure
@@ -167,6 +171,12 @@ package util
 //@                                                          netContains(netOfVal(net), ipval(reservedNetworks[j].IP))))
 
 //@ spec rnNonNil() bool = forall(j, 0, len(reservedNetworks), reservedNetworks[j] != nil)
+
+// Package invariants (what initialisation establishes and nothing changes afterwards); the lint
+// sweep of C02 assumes them at entry of every lint, see govc/pkginv.go for the obligations.
+//@ pkginv rnNonNil() by init@ip.go
+//@ pkginv primesWF() by census:primes
+//@ pkginv tldWF() by census:tld
 
 // ---------------------------------------------------------------------------
 // small prime factors (C16). The table is the bigIntPrimes literal (read mechanically);
